@@ -236,6 +236,37 @@ KINDS = ["str", "Path", "file@0", "file@mid", "file@eof", "bytesio@0", "bytesio@
          "bufferedreader"]
 
 
+def _logging(cls):
+    class Logged(cls):
+        def _init_log(self):
+            self.oplog = []
+            return self
+
+        def tell(self):
+            r = super().tell()
+            if hasattr(self, "oplog"):
+                self.oplog.append({"op": "tell", "arg": 0, "res": r})
+            return r
+
+        def seek(self, off, whence=0):
+            r = super().seek(off, whence)
+            if hasattr(self, "oplog"):
+                self.oplog.append({"op": "seek", "arg": off, "res": r})
+            return r
+
+        def read(self, size=-1):
+            d = super().read(size)
+            if hasattr(self, "oplog"):
+                self.oplog.append({"op": "read", "arg": size if size is not None else -1,
+                                   "res": len(d)})
+            return d
+    return Logged
+
+
+LogBuffered = _logging(io.BufferedReader)
+LogBytesIO = _logging(io.BytesIO)
+
+
 def _c01_worker(args):
     algo, sizes, kinds, base, seed = args
     fhs, _ = load_hashstore()
@@ -269,20 +300,29 @@ def _c01_worker(args):
                 elif kind == "Path":
                     arg = Path(fpath)
                 elif kind.startswith("file@"):
-                    stream = open(fpath, "rb")
+                    stream = LogBuffered(io.FileIO(fpath, "rb"))
                     pos = {"0": 0, "mid": size // 2, "eof": size}[kind[5:]]
                     stream.seek(pos)
+                    stream._init_log()
                     arg = stream
                 elif kind.startswith("bytesio@"):
-                    stream = io.BytesIO(data)
+                    stream = LogBytesIO(data)
                     pos = {"0": 0, "mid": size // 2}[kind[8:]]
                     stream.seek(pos)
+                    stream._init_log()
                     arg = stream
                 else:
-                    stream = io.BufferedReader(io.BytesIO(data))
+                    stream = LogBuffered(io.BytesIO(data))
                     pos = 0
+                    stream._init_log()
                     arg = stream
                 om = store.store_object(pid, arg)
+                if stream is not None:
+                    ops = list(stream.oplog)
+                    del stream.oplog
+                    reads = [o for o in ops if o["op"] == "read"]
+                    rec["streamlog"] = {"n": size, "k": pos, "b": reads[0]["arg"] if reads else 1,
+                                        "ops": ops}
                 rec["cls"] = "ok"
                 rec["cidTrue"] = om.cid == hashlib.new(h, data).hexdigest()
                 rec["sizeTrue"] = om.obj_size == size
@@ -322,3 +362,28 @@ def sweep_c01(tier, seed):
         res = pool.map(_c01_worker, jobs)
     shutil.rmtree(base, ignore_errors=True)
     return [r for chunk in res for r in chunk]
+
+
+def judge_streams(records):
+    """Operations performed on caller-supplied streams vs spec/StreamModel.tla (TraceStream)."""
+    import re
+    logs = [r["streamlog"] for r in records if r.get("streamlog")]
+    if not logs:
+        return 0, 0, []
+    work = os.path.join(tlc.scratch_root(), "stream.%d" % os.getpid())
+    os.makedirs(work, exist_ok=True)
+    tf = os.path.join(work, "obs.json")
+    with open(tf, "w") as f:
+        json.dump({"records": logs}, f)
+    r = tlc.run_tlc("TraceStream", cfg_file="TraceStream.cfg", workers=1, env={"TRACE_FILE": tf})
+    shutil.rmtree(work, ignore_errors=True)
+    acc, rej = 0, []
+    for m in re.finditer(r'"RUN (\d+) (-?\d+) OF (\d+)"', r.out):
+        if int(m.group(2)) == -1:
+            acc += 1
+        else:
+            rej.append({"record": int(m.group(1)), "matched": max(0, int(m.group(2)) - 1),
+                        "of": int(m.group(3)), "log": logs[int(m.group(1)) - 1]})
+    if r.violated:
+        rej.append({"invariant_violated": r.violated})
+    return len(logs), acc, rej
